@@ -21,7 +21,8 @@ META = {
         'scanning in descending order.  Also (D2): identity tests (`is`) between non-singleton inputs are refused by the decision table (the outcome depends on interning); the skeleton may bind locals to case/strip transforms and the suffix representatives include mixed case; (D3) an unrecognised __hash__ body is evaluated by a small interpreter on representatives of the zero-padding classes.  Not decided: transitivity/monotonicity as quantified statements '
         'over triples (they follow from D1+D2 for a lexicographic comparison; that step is not mechanised).'
         ' Also (D2): each operand of _cmp is padded by its OWN length.'
-        ' Also (D2): no strip/rstrip/lstrip with a multi-character set containing a digit on version text; suffixes are ordered by ONE criterion (a derived-value comparison next to the text comparison is a violation).'),
+        ' Also (D2): no strip/rstrip/lstrip with a multi-character set containing a digit on version text; suffixes are ordered by ONE criterion (a derived-value comparison next to the text comparison is a violation).'
+        ' Also (D1): every way out of a comparison operator is decided by _cmp.'),
     'rule_text': 'obligations = operator thresholds (6), _cmp decision-table cells (3 numeric orderings x 9 suffix '
                  'pairs), padding/int/coercion facts, hash form, nearest() returns and scan order',
     'trusted_base': ['lexicographic lift: a for-loop over zip() of equal-length tuples whose body returns on the '
@@ -79,6 +80,21 @@ def _operators(ctx, methods):
         fn = methods[name]
         body = body_wo_doc(fn)
         a = [x.arg for x in fn.args.args]
+        if len(a) == 2 and not (len(body) == 1 and isinstance(body[0], ast.Return)):
+            # several ways out: every one of them must be decided by _cmp -- an early answer from another measure
+            # (the TEXT of the versions, their type) makes this operator disagree with the other five
+            rets = [r for r in walk_no_nested(fn) if isinstance(r, ast.Return) and r.value is not None]
+            foreign = [r for r in rets if '%s._cmp(%s)' % (a[0], a[1]) not in norm(r.value) and norm(r.value) != 'NotImplemented']
+            if foreign and any('%s._cmp(%s)' % (a[0], a[1]) in norm(r.value) for r in rets):
+                r0 = foreign[0]
+                ctx.violation('C18.D1', '%s::Version.%s' % (F, name), norm(r0),
+                              "Version('2') %s '2.0': this operator answers `%s` for some operands (the text / kind of the operand) "
+                              "while the other operators go through _cmp, which pads 2 to 2.0 -- e.g. Version('2') == '2.0' is False "
+                              "and Version('2') != '2.0' is False too: none of <, ==, > holds, strings do not compare like the "
+                              'versions they spell' % (OPSYM[name], norm(r0.value)[:50]),
+                              'Version.%s has a way out that is not decided by _cmp' % name, file=F, line=r0.lineno, engine='E9')
+                n += 1
+                continue
         if len(body) != 1 or not isinstance(body[0], ast.Return) or len(a) != 2:
             ctx.error('C18.D1', 'Version.%s: body is not a single return' % name)
             continue
